@@ -70,6 +70,11 @@ fn candidates(sc: &Scenario, vround: usize) -> Vec<Scenario> {
             s.rounds[ri].plan.fail.remove(d);
             out.push(s);
         }
+        if r.plan.fail_validated_eph.is_some() {
+            let mut s = sc.clone();
+            s.rounds[ri].plan.fail_validated_eph = None;
+            out.push(s);
+        }
         for k in r.plan.fail_started.keys() {
             let mut s = sc.clone();
             s.rounds[ri].plan.fail_started.remove(k);
